@@ -149,7 +149,7 @@ impl<'i> NsReader<&'i [u8]> {
         let mut skipped = 0usize;
         loop {
             match self.next_cell() {
-                None => return Err(Error::UnexpectedEof(String::new())),
+                None => return Err(Error::UnexpectedEof),
                 Some(c) => match c.kind {
                     kind::START if same(&c) => depth += 1,
                     kind::END if same(&c) => {
